@@ -64,39 +64,42 @@ func muxImpl(line string) string {
 	}
 	switch f[1] {
 	case "idalloc":
-		// the id allocation alone (what NewChannel calls first), hammered from g goroutines: n ids in total
+		// the id allocation alone (what NewChannel calls first), hammered from g goroutines: n ids per
+		// connection (a connection has 65536 ids), 8 connections
 		g, n := arg(2), arg(3)
-		conn, _ := tds.VerifNewConn(context.Background(), newMemConn(), testInfo(), false)
-		defer conn.VerifCancel()
-		per := n / g
-		ids := make([][]int, g)
-		var wg sync.WaitGroup
-		start := make(chan struct{})
-		for i := 0; i < g; i++ {
-			wg.Add(1)
-			go func(i int) {
-				defer wg.Done()
-				<-start
-				for k := 0; k < per; k++ {
-					id, err := conn.VerifAllocChannelId()
-					if err != nil {
-						return
-					}
-					ids[i] = append(ids[i], id)
-				}
-			}(i)
-		}
-		close(start)
-		wg.Wait()
-		seen := map[int]bool{}
 		total := 0
-		for _, l := range ids {
-			for _, id := range l {
-				if seen[id] {
-					return fmt.Sprintf("every channel obtains a distinct id (id %d handed out twice)", id)
+		for round := 0; round < 8; round++ {
+			conn, _ := tds.VerifNewConn(context.Background(), newMemConn(), testInfo(), false)
+			per := n / g
+			ids := make([][]int, g)
+			var wg sync.WaitGroup
+			start := make(chan struct{})
+			for i := 0; i < g; i++ {
+				wg.Add(1)
+				go func(i int) {
+					defer wg.Done()
+					<-start
+					for k := 0; k < per; k++ {
+						id, err := conn.VerifAllocChannelId()
+						if err != nil {
+							return
+						}
+						ids[i] = append(ids[i], id)
+					}
+				}(i)
+			}
+			close(start)
+			wg.Wait()
+			conn.VerifCancel()
+			seen := map[int]bool{}
+			for _, l := range ids {
+				for _, id := range l {
+					if seen[id] {
+						return fmt.Sprintf("every channel obtains a distinct id (id %d handed out twice)", id)
+					}
+					seen[id] = true
+					total++
 				}
-				seen[id] = true
-				total++
 			}
 		}
 		return fmt.Sprintf("ok distinct %d", total)
@@ -359,7 +362,7 @@ func init() {
 			// the allocation alone, without the handshake that spaces the calls out
 			for _, g := range []int{2, 4, 8, 16} {
 				for r := 0; r < 3; r++ {
-					emit(Case{Line: fmt.Sprintf("mux idalloc %d %d #%d", g, 16000, r), Kind: "idalloc"})
+					emit(Case{Line: fmt.Sprintf("mux idalloc %d %d #%d", g, 60000, r), Kind: "idalloc"})
 				}
 			}
 			for _, a := range []int{11, 15, 4, 9, 27} { // PROTACK, NORMAL, RESPONSE, CLOSE, PROTACK|…
@@ -405,7 +408,7 @@ func init() {
 		},
 		FindingKey: func(line, out, clause string) string { return strings.Fields(line)[1] + ":" + clause },
 		Nontrivial: func(line, out string) bool { return true },
-		Rule:       "real Conn over the in-memory transport: the id allocation alone hammered from 2..16 goroutines (16000 ids each case); 4..48 concurrent NewChannel calls from 1..16 goroutines against a peer acknowledging every setup (ids distinct, all registered); setup with other acknowledgement types; 1..8 channels with 1..12 packages each interleaved at random by the peer incl. packets for unknown channels, one consumer goroutine per channel (exact per-channel sequences, connection error count); 1..8 concurrent senders (per-channel ids, consecutive packet numbers, data intact), incl. channels that send more than 256 packets (packet number wrap). The thorough tier repeats more often; run the harness binary built with -race for the race detector evidence",
+		Rule:       "real Conn over the in-memory transport: the id allocation alone hammered from 2..16 goroutines (60000 ids each case: the counter stays below 65536); 4..48 concurrent NewChannel calls from 1..16 goroutines against a peer acknowledging every setup (ids distinct, all registered); setup with other acknowledgement types; 1..8 channels with 1..12 packages each interleaved at random by the peer incl. packets for unknown channels, one consumer goroutine per channel (exact per-channel sequences, connection error count); 1..8 concurrent senders (per-channel ids, consecutive packet numbers, data intact), incl. channels that send more than 256 packets (packet number wrap). The thorough tier repeats more often; run the harness binary built with -race for the race detector evidence",
 		Serial:     false,
 		Isolate:    true,
 		NoShrink:   true,
